@@ -181,7 +181,7 @@ func solveAll(ctx *SMTCtx, obls []*Obligation, dir string, timeoutS int, workers
 					os.Remove(rf)
 				}
 				ob.TimeS = time.Since(t0).Seconds()
-				if ob.Result == "unsat" {
+				if ob.Result == "unsat" && os.Getenv("GVERIF_KEEPALL") == "" {
 					os.Remove(file)
 				}
 			}
